@@ -32,6 +32,8 @@ var sweepPool = []string{
 	"(1.bear:5.bear)", "(\"a\".bear:\"c\")", "[[1, 2].bear, [3].bear]", "[{a: 1}.bear, {a: 2}]", "[1, 2, 3, 4, 5, 6, 7]",
 	// non-finite and extreme floats (they cannot be written as literals)
 	"\"NaN\".F", "\"Inf\".F", "\"-Inf\".F", "((-1.0) ** 0.5)", "1.0e300", "1.0e-300", "(0.0 * -1.0)", "9.3e18", "%{[1]: 1}", "%{[2]: 1}", "%{[1]: 1, 2: 3}", "%{{a: 1}: 2}",
+	// texts that are not valid patterns / numbers / JSON (error paths that may be taken more than once per process)
+	"\"[\"", "\"(\"", "\"*a\"", "\"{\"", "\"\\\\\"",
 	// texts that decode to booleans
 	"\"true\"", "\"[true, false, [true]]\"", "\"{\\\"a\\\": false, \\\"b\\\": true}\"",
 	// ranges with omitted bounds
